@@ -254,7 +254,7 @@ func reifyMap(opts *options, to reflect.Value, from *Config, validators []valida
 
 	// entries of a pre-filled map that the configuration does not mention
 	// stay as they are; like every other default they must validate
-	for _, key := range to.MapKeys() {
+	for _, key := range sortedMapKeys(to) {
 		if _, mentioned := fields[key.String()]; mentioned {
 			continue
 		}
